@@ -832,13 +832,17 @@ class Program:
             ancestors = []
         pairs = []
         indent = len(ancestors) * self.indent
-        ancestor_path = ".".join(x for x in ancestors)
+        # NOTE: names are shown the way the CLI accepts them, i.e. as
+        # (re-)normalized by the top level collection; nested collections may
+        # have been built with a different auto_dash_names setting.
+        normalize = self.collection.transform
+        ancestor_path = ".".join(normalize(x) for x in ancestors)
         for name, task in sorted(coll.tasks.items()):
             is_default = name == coll.default
             # Start with just the name and just the aliases, no prefixes or
             # dots.
-            displayname = name
-            aliases = sorted(coll.tasks.aliases_of(name))
+            displayname = normalize(name)
+            aliases = sorted(normalize(x) for x in coll.tasks.aliases_of(name))
             # If displaying a sub-collection (or if we are displaying a given
             # namespace/root), tack on some dots to make it clear these names
             # require dotted paths to invoke.
@@ -869,7 +873,7 @@ class Program:
         # Determine whether we're at max-depth or not
         truncate = self.list_depth and (len(ancestors) + 1) >= self.list_depth
         for name, subcoll in sorted(coll.collections.items()):
-            displayname = name
+            displayname = normalize(name)
             if ancestors or self.list_root:
                 displayname = ".{}".format(displayname)
             if truncate:
